@@ -130,6 +130,11 @@ def gen_case(rng, max_ops):
         isint = rng.random() < 0.15
         v = float(rng.randint(1, 5)) if isint else round(rng.choice([rng.uniform(0.01, 2.0), 10 ** rng.uniform(-6, 3)]), rng.randint(2, 12))
         if v <= 0: v = 0.5
+        # sweeps: re-assignments close to (or in the dilute regime far below any absolute tolerance of) an earlier value of the same kind
+        prev = [o['v'] for o in ops if o['kind'] == kind]
+        c = rng.random()
+        if prev and c < 0.2: v = prev[-1] * (1 + rng.choice([1e-6, -1e-6, 4e-6, 1e-9, 1e-12])); isint = False
+        elif c < 0.3: v = rng.choice([1e-9, 5e-9, 2e-10, 3e-8]) * rng.choice([1.0, 1.7]); isint = False
         ops.append({'kind': kind, 'ts': ts, 'v': v, 'style': style, 'int': isint})
     return {'n': n, 'ops': ops}
 
